@@ -9,7 +9,9 @@ attributes OrderedSet, IdentitySet, immutabledict, LRUCache, unique_list.
 Elements are small indices into POOL; all wire formats use the indices.
 """
 import contextlib
+import copy
 import itertools
+import pickle
 import signal
 
 # ints colliding modulo 8 / 16 / 32 so that builtin-set iteration order differs from both
@@ -256,7 +258,18 @@ def os_run_sequence(ns, nregs, ops):
                 if n == "new":
                     newobj = OrderedSet() if op["arg"] is None else OrderedSet(argobjs[0])
                 elif n == "copy":
-                    newobj = me.copy()
+                    if via == "copy":
+                        newobj = copy.copy(me)
+                    elif via == "deepcopy":
+                        newobj = copy.deepcopy(me)
+                    elif via == "pickle":
+                        newobj = pickle.loads(pickle.dumps(me))
+                    else:
+                        newobj = me.copy()
+                    shared = getattr(newobj, "_list", None)
+                    if shared is not None and shared is getattr(me, "_list", object()):
+                        key = "orderedset-copy-module-shares-list" if via == "copy" else os_classify(op, argorders, "copy-shares-list")
+                        fail = fail or (key, "the copy's _list IS the original's _list", k)
                 elif n == "add":
                     res = me.add(POOL[op["x"]])
                 elif n == "remove":
@@ -388,7 +401,7 @@ def os_gen_op(rng, nregs, nelem=6):
         a = None if rng.random() < 0.15 else os_gen_arg(rng, nregs)
         return {"op": "new", "dst": r, "arg": a}
     if w < 0.12:
-        return {"op": "copy", "dst": r, "r": rng.randrange(nregs)}
+        return {"op": "copy", "dst": r, "r": rng.randrange(nregs), "via": rng.choice(["method", "method", "copy", "deepcopy", "pickle"])}
     if w < 0.20:
         return {"op": "add", "r": r, "x": x}
     if w < 0.26:
